@@ -779,19 +779,33 @@ func (e *c14env) partIntPairs(u *c14unit, chunk, K int) {
 		}
 		return c14withNil(lf, c14alphabet(lf.bits, lf.signed))
 	}
+	// A work item is (pair, one of 4 slices of the first field's alphabet); the items are dealt round-robin over the
+	// K chunks. Pairs go through Clone, SSZ, JSON and the proto encoding with SSZ payload (the JSON payload of the
+	// proto encoding is covered one field at a time).
+	const slices = 4
 	n := 0
 	for i := 0; i < len(ws); i++ {
 		for j := i + 1; j < len(ws); j++ {
-			n++
-			if (n-1)%K != chunk {
-				continue
+			if chunk == 0 {
+				e.r.Count("int_field_pairs", 1)
 			}
-			if e.r.Expired() {
-				return
+			a0, a1 := alph(ws[i]), alph(ws[j])
+			for sl := 0; sl < slices; sl++ {
+				n++
+				if (n-1)%K != chunk {
+					continue
+				}
+				if e.r.Expired() {
+					return
+				}
+				var part []c14intVal
+				for k, v := range a0 {
+					if k%slices == sl {
+						part = append(part, v)
+					}
+				}
+				e.intRun(u, base, []c14leaf{ws[i], ws[j]}, []c14pass{{"all", [][]c14intVal{part, a1}}}, "int_pair_variants_roundtripped")
 			}
-			e.r.Count("int_field_pairs", 1)
-			al := [][]c14intVal{alph(ws[i]), alph(ws[j])}
-			e.intRun(u, base, []c14leaf{ws[i], ws[j]}, []c14pass{{"all", al}, {"jsonproto", al}}, "int_pair_variants_roundtripped")
 		}
 	}
 }
